@@ -127,6 +127,20 @@ def check_targets(x, lab, bad, backend, ordered=True, loose=False, origin=None):
     names = [c.name for c in x]
     if base.columns != names:
         bad.append(f"{lab}: frame columns {base.columns} differ from the table's columns {names}")
+    # schema_overrides: the requested type of a column is the type of that column in the exported frame, on every target
+    # (implemented for the SQL backends; the Polars backend documents it as not yet used)
+    if backend == "sqlite":
+        icols = [c for c in names if base.schema[c] == pl.Int64]
+        if icols:
+            ov = {icols[-1]: pl.Float64}
+            try:
+                for tname, tgt in (("Polars()", pdt.Polars()), ("Polars(lazy=True)", pdt.Polars(lazy=True))):
+                    o = x >> pdt.export(tgt, schema_overrides=ov)
+                    sch = o.collect_schema() if isinstance(o, pl.LazyFrame) else o.schema
+                    if sch[icols[-1]] != pl.Float64 or list(sch.names()) != names:
+                        bad.append(f"{lab}: export({tname}, schema_overrides={{{icols[-1]!r}: Float64}}) gives column type {sch[icols[-1]]} (columns {list(sch.names())})")
+            except (pdt.errors.SubqueryError, pdt.errors.NotSupportedError):
+                pass
     # lazy
     lz = x >> pdt.export(pdt.Polars(lazy=True))
     if not isinstance(lz, pl.LazyFrame):
